@@ -58,6 +58,13 @@ static __thread int t_nonblock;
 
 static int g_sndbuf, g_rcvbuf;
 
+/* C06: one-shot I/O fault per tag and direction, send byte budget, connect fault */
+static int g_io_fail_n[SH_MAX_TAGS][2], g_io_fail_errno[SH_MAX_TAGS][2];
+static int g_io_fault_hits;
+static int g_budget_on[SH_MAX_TAGS];
+static long g_budget[SH_MAX_TAGS];
+static int g_connect_fail_errno[SH_MAX_TAGS];
+
 static int g_eintr_at, g_blocking_polls;
 static int g_fail_res_at, g_fail_res_errno, g_res_calls, g_res_fault_hit;
 #define MAXRES 512
@@ -200,6 +207,10 @@ void sh_reset(void)
     memset(cnts, 0, sizeof(cnts));
     g_eintr_at = g_blocking_polls = 0;
     g_fail_res_at = g_fail_res_errno = g_res_calls = g_res_fault_hit = 0;
+    memset(g_io_fail_n, 0, sizeof(g_io_fail_n));
+    memset(g_budget_on, 0, sizeof(g_budget_on));
+    memset(g_connect_fail_errno, 0, sizeof(g_connect_fail_errno));
+    g_io_fault_hits = 0;
     g_sleep_viol = 0; g_sleep_text[0] = 0;
     g_foreign = 0; g_foreign_text[0] = 0;
     g_connlog_len = 0;
@@ -294,6 +305,42 @@ void sh_retag(int from, int to)
 }
 
 void sh_set_bufsizes(int sndbuf, int rcvbuf) { g_sndbuf = sndbuf; g_rcvbuf = rcvbuf; }
+
+void sh_fail_io_at(int tag, enum sh_dir dir, int n, int err)
+{
+    if (!valid_tag(tag) || dir > SH_RECV) return;
+    lock();
+    g_io_fail_n[tag][dir] = n;
+    g_io_fail_errno[tag][dir] = err;
+    unlock();
+}
+int sh_io_fault_hits(void) { return g_io_fault_hits; }
+void sh_send_budget(int tag, long nbytes)
+{
+    if (!valid_tag(tag)) return;
+    lock();
+    g_budget_on[tag] = nbytes >= 0;
+    g_budget[tag] = nbytes;
+    unlock();
+}
+long sh_send_budget_left(int tag) { return valid_tag(tag) && g_budget_on[tag] ? g_budget[tag] : -1; }
+void sh_fail_next_connect(int tag, int err)
+{
+    if (valid_tag(tag)) g_connect_fail_errno[tag] = err;
+}
+
+static int io_fault(int tag, int dir)
+{
+    int e = 0;
+    if (!valid_tag(tag)) return 0;
+    lock();
+    if (g_io_fail_n[tag][dir] > 0 && --g_io_fail_n[tag][dir] == 0) {
+        e = g_io_fail_errno[tag][dir];
+        g_io_fault_hits++;
+    }
+    unlock();
+    return e;
+}
 
 void sh_eintr_at(int n) { lock(); g_eintr_at = n; unlock(); }
 int sh_blocking_polls(void) { return g_blocking_polls; }
@@ -434,6 +481,12 @@ int connect(int fd, const struct sockaddr *addr, socklen_t len)
         log_connect(addr);
         int inj = resource_call("connect");
         if (inj) { errno = inj; return -1; }
+        if (addr->sa_family != AF_UNSPEC && fds[fd].kind == K_TCP && valid_tag(fds[fd].tag) && g_connect_fail_errno[fds[fd].tag]) {
+            errno = g_connect_fail_errno[fds[fd].tag];
+            g_connect_fail_errno[fds[fd].tag] = 0;
+            cnts[fds[fd].tag].conn_fail_inj++;
+            return -1;
+        }
     }
     int rc = real_connect(fd, addr, len);
     if (t_inside && is_lib_fd(fd)) {
@@ -490,6 +543,22 @@ ssize_t send(int fd, const void *buf, size_t len, int flags)
     if (c) c->send_calls++;
     struct directive d;
     size_t n = len;
+    {
+        int fe = io_fault(tag, SH_SEND);
+        if (fe) {
+            if (c) c->send_fail_inj++;
+            errno = fe;
+            return -1;
+        }
+    }
+    if (valid_tag(tag) && g_budget_on[tag] && fds[fd].kind == K_TCP) {
+        if (g_budget[tag] <= 0) {
+            if (c) c->send_eagain_inj++;
+            errno = EAGAIN;
+            return -1;
+        }
+        if ((size_t)g_budget[tag] < n) n = g_budget[tag];
+    }
     if (pop(tag, SH_SEND, &d)) {
         switch (d.kind) {
         case SH_EAGAIN:
@@ -515,6 +584,7 @@ ssize_t send(int fd, const void *buf, size_t len, int flags)
             if ((size_t)rc < len) c->send_short++;
         }
     }
+    if (rc > 0 && valid_tag(tag) && g_budget_on[tag] && fds[fd].kind == K_TCP) g_budget[tag] -= rc;
     return rc;
 }
 
@@ -529,6 +599,14 @@ ssize_t recv(int fd, void *buf, size_t len, int flags)
     if (c) c->recv_calls++;
     struct directive d;
     size_t n = len;
+    {
+        int fe = io_fault(tag, SH_RECV);
+        if (fe) {
+            if (c) c->recv_fail_inj++;
+            errno = fe;
+            return -1;
+        }
+    }
     /* do not waste directives on calls for which the kernel has nothing */
     int avail = 1;
     if (fds[fd].kind == K_TCP && ioctl(fd, FIONREAD, &avail) < 0) avail = 1;
